@@ -511,12 +511,20 @@ namespace GeographicLib {
     // 48.522876735459 0 -48.52287673545898293 179.599720456223079643
     // which failed with Visual Studio 10 (Release and Debug)
 
+    // Round-off in sincosd and norm can also make |bet2| exceed |bet1| by an
+    // ulp (the latitudes are ordered, |lat2| <= |lat1|); Lambda12 would then
+    // take the square root of a negative number.  Treat this like equality.
+
     if (cbet1 < -sbet1) {
-      if (cbet2 == cbet1)
-        sbet2 = copysign(sbet1, sbet2);
-    } else {
-      if (fabs(sbet2) == -sbet1)
+      if (cbet2 <= cbet1) {
         cbet2 = cbet1;
+        sbet2 = copysign(sbet1, sbet2);
+      }
+    } else {
+      if (fabs(sbet2) >= -sbet1) {
+        sbet2 = copysign(sbet1, sbet2);
+        cbet2 = cbet1;
+      }
     }
 
     real
